@@ -131,6 +131,19 @@ func leaseCompletion(sc leaseScenario, o leaseOut, ph leasePhase, offer *dhcpv4.
 		}
 	}
 	done := o.res == "lease" || o.res == "nak"
+	if done && leaseRawSid(offer) == nil {
+		// Known finding on the unchanged tree: an offer WITHOUT a four-byte server
+		// identifier (missing, empty, 3/5/16 bytes) names no server, yet the exchange is
+		// completed - by exactly the ACK/NAKs that carry no well-formed identifier either,
+		// whoever sent them (IsCorrectServer(nil) matches ServerIdentifier() == nil).
+		return "completion-without-server-id", fmt.Sprintf("the offer carries no four-byte server identifier (option 54 = %s), yet the call completed with %s on a datagram whose option 54 = %s",
+			hxOpt(offer.Options[54]), o.res, hxOpt(func() []byte {
+				if o.p2 != nil {
+					return o.p2.Options[54]
+				}
+				return nil
+			}()))
+	}
 	switch {
 	case c == nil:
 		if done {
